@@ -3,7 +3,7 @@ use std::cell::{Cell, RefCell};
 use std::io::{self, Write};
 use std::panic::UnwindSafe;
 use std::process::abort;
-use std::sync::atomic::{AtomicBool, Ordering};
+use std::sync::Once;
 
 /// Describes the fallback behavior when
 /// a panic occurs outside of `catch_panic`.
@@ -28,7 +28,7 @@ thread_local! {
     // Status of the panic catcher
     static PANIC_CATCHER_ENABLED: Cell<bool> = const { Cell::new(false) };
 }
-static PANIC_CATCHER_HOOK_SET: AtomicBool = AtomicBool::new(false);
+static PANIC_CATCHER_HOOK_SET: Once = Once::new();
 
 #[inline]
 fn panic_catcher_start_catching() -> bool {
@@ -133,29 +133,30 @@ fn record_backtrace(info: &std::panic::PanicHookInfo<'_>, bt: &mut String) {
 
 /// Registers panic catcher panic hook.
 pub fn panic_catcher_set_hook() {
-    if PANIC_CATCHER_HOOK_SET.load(Ordering::SeqCst) {
-        return;
-    }
-    let next = std::panic::take_hook();
-    std::panic::set_hook(Box::new(move |info| {
-        if PANIC_CATCHER_LEVEL.with(|enabled| enabled.get() > 0) {
-            PANIC_CATCHER_BACKTRACE.with(|bt| {
-                let mut bt = bt.borrow_mut();
-                record_backtrace(info, &mut bt);
-            });
-            return;
-        }
-        match PANIC_CATCHER_FALLBACK_MODE.with(|b| b.get()) {
-            PanicCatcherFallbackMode::Continue => next(info),
-            PanicCatcherFallbackMode::Abort => {
-                let mut bt = String::new();
-                record_backtrace(info, &mut bt);
-                let _ = io::stderr().write_all(bt.as_bytes());
-                abort();
+    // `take_hook` followed by `set_hook` leaves a window in which the global
+    // hook is the default one: install exactly once and make concurrent
+    // callers wait for the installation instead of racing it.
+    PANIC_CATCHER_HOOK_SET.call_once(|| {
+        let next = std::panic::take_hook();
+        std::panic::set_hook(Box::new(move |info| {
+            if PANIC_CATCHER_LEVEL.with(|enabled| enabled.get() > 0) {
+                PANIC_CATCHER_BACKTRACE.with(|bt| {
+                    let mut bt = bt.borrow_mut();
+                    record_backtrace(info, &mut bt);
+                });
+                return;
             }
-        }
-    }));
-    PANIC_CATCHER_HOOK_SET.store(true, Ordering::SeqCst);
+            match PANIC_CATCHER_FALLBACK_MODE.with(|b| b.get()) {
+                PanicCatcherFallbackMode::Continue => next(info),
+                PanicCatcherFallbackMode::Abort => {
+                    let mut bt = String::new();
+                    record_backtrace(info, &mut bt);
+                    let _ = io::stderr().write_all(bt.as_bytes());
+                    abort();
+                }
+            }
+        }));
+    });
 }
 
 /// Enables the panic catcher.
